@@ -109,6 +109,10 @@ NOISE_TEXTS = [
     'def lambda { splitters: class return "a" weighted 1 }',
     "/*",
     'def n { salt: "x" splitters: zz_first, zz_second if zz_first == (1, (2, zz_second)) { return 1 weighted 1, 1.0 weighted 2 } }',
+    # refused half-way through a return statement (after complete groups have been read)
+    'def n { splitters: u return "old_a" weighted 5, "old_b" weighted }',
+    'def n { splitters: u return "old_a" weighted 5, "old_b" weighted 7, }',
+    'def n { splitters: u return "a" weighted 1, "b" weighted 0.5 @',
 ]
 RESET_TEXT = '/* reset */ def r { return "a" weighted 1 }'
 
@@ -252,3 +256,56 @@ def refused_deploy(ev, text):
         ev.recompile(broken)
     except Exception:
         pass
+
+
+# --------------------------------------------------------------------------- recompile with recycled object ids
+def _fresh(text):
+    """a brand-new str object with this content (never an interned constant)"""
+    return "".join([text[:1], text[1:]]) if text else str(bytes(0), "ascii")
+
+
+def recycled_recompile(ev, prev_text, next_text, tries=64):
+    """hand `next_text` to ev.recompile() the way a poller does that renders / reads its text anew on every tick and keeps no
+    reference: the previous text object has been dropped and collected, and the new one - padded with trailing blanks to the same
+    size - sits at the freed address, so id(new) == id(old).  Anything that remembers only an object id cannot tell them apart.
+    Exceptions of the final recompile propagate.  -> True if the id really was recycled"""
+    import gc
+
+    n = max(len(prev_text), len(next_text))
+    if prev_text.isascii() != next_text.isascii():
+        ev.recompile(_fresh(next_text))  # different character widths: different object sizes, no recycling possible
+        return False
+    p = _fresh(prev_text + " " * (n - len(prev_text)))
+    try:
+        ev.recompile(p)
+    except Exception:
+        pass  # (the previous text may itself be one the evaluator refuses)
+    pid = id(p)
+    del p
+    gc.collect(1)  # the young generations are enough for the cycle that the last compile left behind (a full collection is slow)
+    keep = []
+    c = None
+    for _ in range(tries):
+        c = _fresh(next_text + " " * (n - len(next_text)))
+        if id(c) == pid:
+            break
+        keep.append(c)
+    reused = id(c) == pid
+    del keep
+    ev.recompile(c)
+    return reused
+
+
+def rendered_again(text, name, expose=False):
+    """the function defined by the SECOND generate() of one code generator (followed by other renderings of the same parsed AST):
+    rendering must not change the generator or the AST, so this function is as good as the first"""
+    ast_ = sut.wrappers().parse_source(text)
+    G = sut.codegen().PythonCodeGen
+    g = G(ast_, expose_experiment_variant_function=expose)
+    first = g.generate()
+    second = g.generate()
+    other = G(ast_, expose_experiment_variant_function=not expose).generate()
+    third = G(ast_, expose_experiment_variant_function=expose).generate()
+    ns = {}
+    exec(compile(second, "<second-generate>", "exec"), ns)
+    return ns[name], {"first == second": first == second, "first == fresh generator on the same AST": first == third, "other layout renders": bool(other)}
